@@ -38,6 +38,12 @@ class _FIXRepeatingGroupContainer:
         else:
             self.groups.insert(index, group)
 
+    def __eq__(self, other):
+        return (
+            isinstance(other, _FIXRepeatingGroupContainer)
+            and self.groups == other.groups
+        )
+
     def __str__(self):
         return str(len(self.groups)) + "=>" + str(self.groups)
 
@@ -350,7 +356,7 @@ class FIXContainer:
         """
         # if our string representation looks the same, the objects are equivalent
         if isinstance(other, FIXContainer):
-            return self.__str__() == other.__str__()
+            return list(self.tags.items()) == list(other.tags.items())
         elif isinstance(other, dict):
             ignore_tags = {
                 FTag.BeginString,
